@@ -10,9 +10,9 @@ import (
 
 // verifyFunction symbolically executes fn under its contract and returns the engine with all
 // obligations generated (not yet discharged).
-func verifyFunction(P *Program, fn *ssa.Function, con *Contract, safe bool, props []string) *Engine {
+func verifyFunction(P *Program, fn *ssa.Function, con *Contract, safe bool, props []string) (e *Engine) {
 	t0 := time.Now()
-	e := newEngine(P, fn, con)
+	e = newEngine(P, fn, con)
 	e.wantSafe = safe
 	e.props = props
 	if con != nil {
@@ -52,6 +52,10 @@ func verifyFunction(P *Program, fn *ssa.Function, con *Contract, safe bool, prop
 	for _, fv := range fn.FreeVars {
 		v := e.freshVal(st, "fv."+fv.Name(), fv.Type())
 		fr.env = append(fr.env, v)
+		if e.rootFree == nil {
+			e.rootFree = map[string]Val{}
+		}
+		e.rootFree[fv.Name()] = v
 	}
 	e.assumeDisjointParams(st)
 	e.entry = st // requires are evaluated with old == current
@@ -76,9 +80,62 @@ func verifyFunction(P *Program, fn *ssa.Function, con *Contract, safe bool, prop
 		env.fr = nil
 		e.applyGhostEffects(st, con, env)
 	}
+	if con != nil && con.has("by-induction") {
+		e.inductionObligations(st, con)
+		e.renameSites()
+		return e
+	}
 	e.exec(st, 0)
 	e.renameSites()
 	return e
+}
+
+// inductionObligations: a contract marked `by-induction` states a two-state relation R(old, new) that
+// every function outside a small "inside" set preserves. The body is not executed; instead the side
+// conditions of the call-graph induction that are expressible as formulas are discharged here:
+// R is reflexive (a function that writes nothing satisfies it) and transitive (a sequence of calls
+// that each satisfy it satisfies it), with the requires clauses carried along as part of R. The
+// remaining side conditions (who writes the footprint, who calls the inside set) are the K5
+// `only-writers` / `callers` scans written next to it.
+func (e *Engine) inductionObligations(st *State, con *Contract) {
+	fn := e.fn
+	name := shortFn(fn)
+	e.inductive = con.get("by-induction")[0].Text
+	env := e.rootEnv(st, nil)
+	env.fr = nil
+	props := con.Props
+	s0 := st.clone()
+	// reflexive
+	for k, c := range con.get("ensures") {
+		g := e.evalSpecBool(st, s0, c.Expr, env)
+		e.oblige(st, fmt.Sprintf("%s#induction:reflexive#%d %s", name, k+1, c.Label), "K6", c.Text, g, "", props)
+	}
+	// transitive: s0 -R-> s1 -R-> s2  ==>  s0 -R-> s2   (requires hold in s0 and, as part of R, again in s1)
+	s1 := st.clone()
+	e.foreignOrFullHavoc(s1, fn, "induction step 1")
+	na := e.fresh("A", "Int")
+	s1.assume(fmt.Sprintf("(>= %s %s)", na, s1.A.term()))
+	s1.A = allocCtr{na, 0}
+	for _, c := range con.get("ensures") {
+		s1.assume(e.evalSpecBool(s1, s0, c.Expr, env))
+	}
+	for _, c := range con.get("requires") {
+		g := e.evalSpecBool(s1, s1, c.Expr, env)
+		e.oblige(s1, fmt.Sprintf("%s#induction:requires-preserved %s", name, c.Label), "K6", c.Text, g, "", props)
+	}
+	s2 := s1.clone()
+	e.foreignOrFullHavoc(s2, fn, "induction step 2")
+	nb := e.fresh("A", "Int")
+	s2.assume(fmt.Sprintf("(>= %s %s)", nb, s2.A.term()))
+	s2.A = allocCtr{nb, 0}
+	for _, c := range con.get("ensures") {
+		s2.assume(e.evalSpecBool(s2, s1, c.Expr, env))
+	}
+	for k, c := range con.get("ensures") {
+		g := e.evalSpecBool(s2, s0, c.Expr, env)
+		e.oblige(s2, fmt.Sprintf("%s#induction:transitive#%d %s", name, k+1, c.Label), "K6", c.Text, g, "", props)
+	}
+	e.paths = 1
 }
 
 // addParamModelTerms: for pointer / interface parameters, also ask the model for the fields of
